@@ -2,7 +2,7 @@
 # usage: tools/seedtest.sh <patch.diff> <ID> [<ID> ...]
 # Applies a seeded change to a scratch copy of /repo (never /repo itself), runs the given checks
 # against it with separate build/evidence dirs, prints their verdict lines, removes the copy.
-patch="$1"; shift
+patch="$(readlink -f "$1")"; shift
 tag="seed$$"
 dir="/tmp/seedrepo_$tag"
 rm -rf "$dir"; mkdir -p "$dir"
